@@ -2,13 +2,13 @@ SPECIFICATION Spec
 CONSTANTS
   MODE = "reduce"
   K = 2
-  NF = 4
+  NF = 2
   NG = 0
   PF = "p2s"
-  TF = "t22c"
+  TF = "tp2s"
   PG = "p2s"
   TG = "t22c"
-  LAYOUTS = {"dfs", "hole", "rev", "low"}
+  LAYOUTS = {"dfs", "low"}
   EMIT = TRUE
 INVARIANTS LawReduce ResultWellFormed
 ACTION_CONSTRAINT Emit
